@@ -1,8 +1,10 @@
 //! Implementation runner for the `man` area (C19): build a `clap::Command` from the man spec of the
 //! case, render it with the real `clap_mangen::Man`, print the page as hex.
 //!
-//! Case: `(man <spec> [<twin-spec>])`; a spec is `(cmd item ...)`, see `build_cmd` for the items.
-//! Result: `(page x<hex>) (det true|false) [(twin x<hex>)]`; a panic anywhere is printed by main.rs as
+//! Case: `(man <spec>)`; a spec is `(cmd item ...)`, see `build_cmd` for the items.  The harness also renders
+//! the spec's twin (`twin_of`: same tree, innocuous text) for the direct oracle.
+//! Result: `(page x<hex>) (det true|false) (twin x<hex>)`; `INVALID <msg>` when clap's debug assertions
+//! reject the command in `build` (not a valid command); a panic in clap_mangen is printed by main.rs as
 //! `PANIC <msg>`, a panic while rendering only the twin as `(twin PANIC)`.
 use crate::hex;
 use crate::sexp::Sx;
@@ -185,8 +187,20 @@ fn build_cmd(items: &[Sx]) -> (Command, ManOpts) {
     (c, m)
 }
 
-fn render(spec: &Sx) -> Vec<u8> {
+/// `Err(msg)`: the spec is not a valid command (clap's own debug assertions reject it in `build`).
+fn render(spec: &Sx) -> Result<Vec<u8>, String> {
     let (cmd, m) = build_cmd(spec.args());
+    let mut probe = cmd.clone();
+    if let Err(p) = catch_unwind(AssertUnwindSafe(move || probe.build())) {
+        let msg = if let Some(s) = p.downcast_ref::<&str>() {
+            s.to_string()
+        } else if let Some(s) = p.downcast_ref::<String>() {
+            s.clone()
+        } else {
+            "?".to_string()
+        };
+        return Err(msg.replace(['\n', '\t'], " "));
+    }
     let mut man = clap_mangen::Man::new(cmd);
     if let Some(t) = m.title {
         man = man.title(t);
@@ -205,19 +219,98 @@ fn render(spec: &Sx) -> Vec<u8> {
     }
     let mut buf: Vec<u8> = vec![];
     man.render(&mut buf).expect("writing to a Vec");
-    buf
+    Ok(buf)
+}
+
+const FREE_TEXT: [&str; 8] = [
+    "about", "long-about", "after-help", "after-long-help", "before-long-help", "help", "long-help", "author",
+];
+const SAFE_SHORTS: &str = "abcdefgijklmnopqrstuvwxyzABCDEFGHIJKLMNOPQRSTUWXYZ0123456789";
+
+/// The same tree with innocuous text in every slot (used by the direct oracle): free text keeps its
+/// number of lines and which of them are empty / blank, every other line becomes `xx`; name-like strings
+/// are replaced consistently (`n<k>x`: equal strings stay equal, distinct ones distinct, empty stays
+/// empty); shorts become safe letters.
+fn twin_of(v: &Sx, names: &mut Vec<Vec<u8>>, shorts: &mut Vec<Vec<u8>>) -> Sx {
+    let l = match v {
+        Sx::List(l) if !l.is_empty() => l,
+        _ => return v.clone(),
+    };
+    let head = v.head();
+    let mut out = vec![l[0].clone()];
+    match head {
+        "cmd" | "arg" | "sub" | "pv" => {
+            for x in &l[1..] {
+                out.push(twin_of(x, names, shorts));
+            }
+        }
+        "action" | "num-args" => return v.clone(),
+        "short" => {
+            for x in &l[1..] {
+                let b = x.bytes();
+                let k = match shorts.iter().position(|y| *y == b) {
+                    Some(k) => k,
+                    None => {
+                        shorts.push(b);
+                        shorts.len() - 1
+                    }
+                };
+                let c = SAFE_SHORTS.as_bytes()[k % SAFE_SHORTS.len()];
+                out.push(Sx::Bytes(vec![c]));
+            }
+        }
+        h if FREE_TEXT.contains(&h) => {
+            for x in &l[1..] {
+                let t = s(x);
+                let parts: Vec<&str> = t.split('\n').collect();
+                let inn: Vec<&str> = parts
+                    .iter()
+                    .map(|p| if p.is_empty() { "" } else if p.trim().is_empty() { " " } else { "xx" })
+                    .collect();
+                out.push(Sx::Bytes(inn.join("\n").into_bytes()));
+            }
+        }
+        _ => {
+            for x in &l[1..] {
+                let b = x.bytes();
+                if b.is_empty() {
+                    out.push(Sx::Bytes(vec![]));
+                    continue;
+                }
+                let k = match names.iter().position(|y| *y == b) {
+                    Some(k) => k,
+                    None => {
+                        names.push(b);
+                        names.len() - 1
+                    }
+                };
+                out.push(Sx::Bytes(format!("n{k}x").into_bytes()));
+            }
+        }
+    }
+    Sx::List(out)
 }
 
 fn man(args: &[Sx]) -> String {
-    let page = render(&args[0]);
+    if args.is_empty() || args[0].head() != "cmd" {
+        return "BADCASE".into();
+    }
+    // a malformed spec (e.g. produced by the shrinker: an item without its argument) is not a case
+    if catch_unwind(AssertUnwindSafe(|| build_cmd(args[0].args()))).is_err() {
+        return "BADCASE".into();
+    }
+    let page = match render(&args[0]) {
+        Ok(p) => p,
+        Err(msg) => return format!("INVALID {msg}"),
+    };
     // determinism: a second, independent build + render of the same spec
-    let again = render(&args[0]);
+    let again = render(&args[0]).unwrap_or_default();
     let mut out = format!("(page {}) (det {})", hex(&page), page == again);
-    if args.len() > 1 {
-        match catch_unwind(AssertUnwindSafe(|| render(&args[1]))) {
-            Ok(t) => out.push_str(&format!(" (twin {})", hex(&t))),
-            Err(_) => out.push_str(" (twin PANIC)"),
-        }
+    let twin = twin_of(&args[0], &mut vec![], &mut vec![]);
+    match catch_unwind(AssertUnwindSafe(|| render(&twin))) {
+        Ok(Ok(t)) => out.push_str(&format!(" (twin {})", hex(&t))),
+        Ok(Err(_)) => out.push_str(" (twin INVALID)"),
+        Err(_) => out.push_str(" (twin PANIC)"),
     }
     out
 }
